@@ -161,15 +161,24 @@ class Check:
 
     # ---- finish ------------------------------------------------------------
     def _is_known(self, v):
-        for k in self.known:
-            if k.get('check') and k['check'] != v['check']:
-                continue
-            if k.get('clause') and k['clause'] not in v.get('clauses', [v['clause']]):
-                continue
-            if k.get('fp') and not re.search(k['fp'], v.get('fp', '')):
-                continue
-            return k
-        return None
+        """A rejected record is a known finding only if EVERY failed clause is covered by a listed finding
+        (same check, clause, fingerprint pattern); one uncovered clause makes it a violation."""
+        hit = None
+        for cl in v.get('clauses', [v['clause']]):
+            found = None
+            for k in self.known:
+                if k.get('check') and k['check'] != v['check']:
+                    continue
+                if k.get('clause') and k['clause'] != cl:
+                    continue
+                if k.get('fp') and not re.search(k['fp'], v.get('fp', '')):
+                    continue
+                found = k
+                break
+            if found is None:
+                return None
+            hit = hit or found
+        return hit
 
     def finish(self):
         wall = time.time() - self.t0
@@ -183,8 +192,9 @@ class Check:
                 seen_known[k['what']] += 1
             else:
                 unknown.append(v)
-        for what, n in seen_known.items():
-            print(f'KNOWN-FINDING: property={self.pid} {what} ({n} records)')
+        for k in self.known:
+            n = seen_known.get(k['what'], 0)
+            print(f'KNOWN-FINDING: property={self.pid} {k["what"]} ({n} records in this run)')
         lines = []
         if unknown:
             os.makedirs(rdir, exist_ok=True)
